@@ -33,6 +33,7 @@
 #include <errno.h>
 #include <fcntl.h>
 #include <netinet/in.h>
+#include <netinet/tcp.h>
 #include <poll.h>
 #include <signal.h>
 #include <stdarg.h>
@@ -67,7 +68,7 @@ static int portbase = 21000, portnext;
 struct scn {
     long id;
     char mode[8], kind[8], tp[8], alg[16], res[12], loc[8];
-    int cto, dto, ue, blk, rot, aux;
+    int cto, dto, ue, blk, rot, aux, ka;
     int nips;
     int fam[MAX_IPS], beh[MAX_IPS];
     char sched[4096];
@@ -263,6 +264,10 @@ static int readable(void)
     return tshim_real_poll(&p, 1, 0) > 0 ? 1 : 0;
 }
 
+/* the TCP options of the established connection: what was configured (-1 = left at the default), what xcm_attr_get
+   reports, what the kernel has on the connection's descriptor (keepalive on/off, time, interval, count, user time-out) */
+static char g_opt[320] = "[]";
+
 static void emit(const char *ev, const char *op, long ret, int err, int w, int nb, int acc, int src, int dat,
 		 const char *sc)
 {
@@ -270,9 +275,9 @@ static void emit(const char *ev, const char *op, long ret, int err, int w, int n
     int un = tshim_unsettled();
     sys_json(sys, sizeof(sys), &un);
     fprintf(out, "{\"x\":%ld,\"n\":%d,\"ev\":\"%s\",\"op\":\"%s\",\"ret\":%ld,\"err\":%d,\"t\":%ld,\"rd\":%d,\"w\":%d,"
-	    "\"nb\":%d,\"sys\":%s,\"acc\":%d,\"src\":%d,\"dat\":%d,\"hg\":%d,\"un\":%d,\"sc\":%s}\n",
+	    "\"nb\":%d,\"sys\":%s,\"acc\":%d,\"src\":%d,\"dat\":%d,\"hg\":%d,\"un\":%d,\"sc\":%s,\"opt\":%s}\n",
 	    S.id, step_no++, ev, op, ret, err, now_ms(), readable(), w, nb, sys, acc, src, dat, tshim_hang(), un,
-	    sc ? sc : "[]");
+	    sc ? sc : "[]", g_opt);
     fflush(out);
 }
 
@@ -311,6 +316,7 @@ static int parse_line(char *line, struct scn *s)
 	else if (!strcmp(tok, "blk")) s->blk = atoi(eq);
 	else if (!strcmp(tok, "rot")) s->rot = atoi(eq);
 	else if (!strcmp(tok, "aux")) s->aux = atoi(eq);
+	else if (!strcmp(tok, "ka")) s->ka = atoi(eq);
 	else if (!strcmp(tok, "sched")) snprintf(s->sched, sizeof(s->sched), "%s", eq);
 	else if (!strcmp(tok, "ips")) {
 	    size_t n = strlen(eq);
@@ -460,6 +466,12 @@ static void do_connect(void)
 	    xcm_attr_map_add_double(attrs, "tcp.connect_timeout", S.cto / 1000.0);
 	if (S.dto >= 0)
 	    xcm_attr_map_add_double(attrs, "dns.timeout", S.dto / 1000.0);
+	if (S.ka > 0) {
+	    xcm_attr_map_add_int64(attrs, "tcp.keepalive_time", S.ka + 1);
+	    xcm_attr_map_add_int64(attrs, "tcp.keepalive_interval", S.ka + 2);
+	    xcm_attr_map_add_int64(attrs, "tcp.keepalive_count", S.ka + 3);
+	    xcm_attr_map_add_int64(attrs, "tcp.user_timeout", S.ka + 4);
+	}
 	char la[128] = "";
 	if (!strcmp(S.loc, "v4")) snprintf(la, sizeof(la), "%s:%s:0", S.tp, LOCAL4);
 	else if (!strcmp(S.loc, "v4p")) snprintf(la, sizeof(la), "%s:%s:%d", S.tp, LOCAL4, local_port);
@@ -543,6 +555,49 @@ static int auto_release(void)
     return stub_dns_release(NULL);
 }
 
+static void record_opts(int lport)
+{
+    /* the connection's descriptor: the connected TCP socket of this process whose local port is the connection's */
+    int cfd = -1;
+    for (int fd = 3; fd < 1024 && cfd < 0; fd++) {
+	struct sockaddr_storage a, b;
+	socklen_t al = sizeof(a), bl = sizeof(b);
+	if (getsockname(fd, (struct sockaddr *)&a, &al) < 0 || (a.ss_family != AF_INET && a.ss_family != AF_INET6))
+	    continue;
+	int port = ntohs(a.ss_family == AF_INET ? ((struct sockaddr_in *)&a)->sin_port : ((struct sockaddr_in6 *)&a)->sin6_port);
+	if (port == lport && getpeername(fd, (struct sockaddr *)&b, &bl) == 0)
+	    cfd = fd;
+    }
+    if (cfd < 0)
+	return;
+    long rep[5] = { -2, -2, -2, -2, -2 }, ker[5] = { -3, -3, -3, -3, -3 };
+    bool kb = false;
+    int64_t v;
+    shim_enter(1);
+    if (xcm_attr_get_bool(sock, "tcp.keepalive", &kb) >= 0) rep[0] = kb;
+    if (xcm_attr_get_int64(sock, "tcp.keepalive_time", &v) >= 0) rep[1] = (long)v;
+    if (xcm_attr_get_int64(sock, "tcp.keepalive_interval", &v) >= 0) rep[2] = (long)v;
+    if (xcm_attr_get_int64(sock, "tcp.keepalive_count", &v) >= 0) rep[3] = (long)v;
+    if (xcm_attr_get_int64(sock, "tcp.user_timeout", &v) >= 0) rep[4] = (long)v;
+    shim_leave();
+    shim_wait_seen();
+    int iv;
+    unsigned uv;
+    socklen_t l = sizeof(iv);
+    if (getsockopt(cfd, SOL_SOCKET, SO_KEEPALIVE, &iv, &l) == 0) ker[0] = iv != 0;
+    l = sizeof(iv);
+    if (getsockopt(cfd, IPPROTO_TCP, TCP_KEEPIDLE, &iv, &l) == 0) ker[1] = iv;
+    l = sizeof(iv);
+    if (getsockopt(cfd, IPPROTO_TCP, TCP_KEEPINTVL, &iv, &l) == 0) ker[2] = iv;
+    l = sizeof(iv);
+    if (getsockopt(cfd, IPPROTO_TCP, TCP_KEEPCNT, &iv, &l) == 0) ker[3] = iv;
+    l = sizeof(uv);
+    if (getsockopt(cfd, IPPROTO_TCP, TCP_USER_TIMEOUT, &uv, &l) == 0) ker[4] = (long)(uv / 1000);
+    long cfg[5] = { -1, S.ka > 0 ? S.ka + 1 : -1, S.ka > 0 ? S.ka + 2 : -1, S.ka > 0 ? S.ka + 3 : -1, S.ka > 0 ? S.ka + 4 : -1 };
+    snprintf(g_opt, sizeof(g_opt), "[%ld,%ld,%ld,%ld,%ld,%ld,%ld,%ld,%ld,%ld,%ld,%ld,%ld,%ld,%ld]", cfg[0], cfg[1], cfg[2], cfg[3],
+	     cfg[4], rep[0], rep[1], rep[2], rep[3], rep[4], ker[0], ker[1], ker[2], ker[3], ker[4]);
+}
+
 /* which listener holds the connection of the socket, is its source the configured one, does data flow */
 static void do_end(void)
 {
@@ -622,10 +677,13 @@ static void do_end(void)
 		    dat = 1;
 	    }
 	}
+	if (acc > 0 && lport > 0)
+	    record_opts(lport);
     } else if (sock != NULL)
 	acc = -1;
     tshim_log_clear();
     emit("end", "verify", sock != NULL ? 0 : -1, 0, 0, 0, acc, src, dat, NULL);
+    snprintf(g_opt, sizeof(g_opt), "[]");
     /* the accepting side goes first, so that the client side never lingers in TIME_WAIT */
     teardown_env();
     if (sock != NULL) {
